@@ -68,7 +68,7 @@ class Info:
 
 @st.composite
 def world_and_layout(draw, min_envs=1, max_envs=3, max_customs=2, need_ce=None, fdims=(2, 3, 4), max_joint=600,
-                     classes=None, levels=(0, 1, 2), force_fdim=True):
+                     classes=None, levels=(0, 1, 2), force_fdim=True, partial_ce=False):
     n_env = draw(st.integers(min_envs, max_envs))
     envs = []
     for _ in range(n_env):
@@ -103,8 +103,8 @@ def world_and_layout(draw, min_envs=1, max_envs=3, max_customs=2, need_ce=None, 
     in_ce: List[str] = []
     if has_ce:
         # one composite over a generated non-empty subset (usually everything)
-        if draw(st.integers(0, 3)) == 0 and len(units) > 1:
-            k = draw(st.integers(1, len(units)))
+        if (partial_ce or draw(st.integers(0, 3)) == 0) and len(units) > 1:
+            k = draw(st.integers(1, len(units) - (1 if partial_ce else 0)))
             in_ce = sorted(draw(st.permutations(units))[:k])
         else:
             in_ce = list(units)
@@ -325,6 +325,11 @@ def step(draw, info: Info, kinds):
             return dict(k="struct", call="new_ce", members=list(draw(st.permutations(pool))[:n]))
         n = draw(st.integers(1, min(4, len(mem))))
         return dict(k="struct", call=call, ce=ce, members=list(draw(st.permutations(mem))[:n]))
+    if k == "measure_d":
+        t = draw(st.sampled_from(subs))
+        es = ["state"] + (["env"] if info.env_of(t) else []) + ([ce] if ce and t in mem else [])
+        return dict(k="measure", entry=draw(st.sampled_from(es)), targets=[t], sep=draw(st.booleans()), destructive=True,
+                    script=draw(st.lists(st.integers(0, 5), min_size=0, max_size=3)))
     if k in ("trace_out", "kraus", "measure", "povm"):
         pool = mem if (ce and draw(st.integers(0, 3)) > 0) else subs
         maxn = {"trace_out": 3, "kraus": 2, "measure": 3, "povm": 2}[k]
